@@ -182,10 +182,8 @@ func checkFormatter(id string, s *ev.Shard, x string) *rp.Fail {
 		}
 	case "C11":
 		if pan2 != nil || err2 != nil {
-			if s != nil {
-				s.Class("blocked_by_C07")
-			}
-			return nil
+			// format(format(x)) does not even exist: the fixed point is not reached (also C07's finding)
+			return &rp.Fail{Sig: "formatted-text-does-not-parse", Msg: fmt.Sprintf("input %q parses; format(x) = %q cannot be formatted again: %v %v", x, f1, err2, pan2), Size: len(x)}
 		}
 		f2, pan := format(tree2)
 		if pan != nil {
